@@ -268,11 +268,11 @@ def w_history(ctx, rng, i):
     last_result = None   # the array returned by the last successful array application
     last_failed = None   # values of the last failing input
     n0 = int(rng.integers(1, 13))
-    for step in range(int(rng.integers(5, 31 if ctx.tier == "thorough" else 16))):
+    for step in range(int(rng.integers(8, 31 if ctx.tier == "thorough" else 24))):
         who = live[rng.integers(0, len(live))]
         ev = ["fresh", "same_object_edited", "near_equal", "other_size", "shape", "on_copy", "repeat_values", "retry_failed",
               "int_or_f32", "on_shared_edges", "reparameterised", "inverse_taken", "previous_result_edited", "non_finite_points",
-              "readonly_view_of_a_buffer", "single_precision_rounding_of_the_previous", "longer_transform_derived", "sibling_built_from_its_vector"][rng.integers(0, 18)]
+              "readonly_view_of_a_buffer", "single_precision_rounding_of_the_previous", "longer_transform_derived", "sibling_built_from_its_vector", "reparameterised", "reparameterised"][rng.integers(0, 20)]
         n = n0
         outside = 0.35 if (is_pwa and rng.random() < 0.35) else 0.0
         if kind == "PWA_unused_vertex" and step == 0:
